@@ -758,18 +758,18 @@ class PureEval(object):
     def fn_bool(self, n):
         return BoolV(truthy(self.ev(n.args[0])))
 
-    def _quant(self, n, univ):
-        # forall(lo, hi, lambda i: body)  /  forall(lambda i: body)
+    def _quant(self, n, univ, text=False):
+        # forall(lo, hi, lambda i: body)  /  forall(lambda i: body); forall_text(lambda s: body) ranges over all text values
         args = n.args
         lam = args[-1]
         if not isinstance(lam, ast.Lambda):
             raise Unsupported('quantifier needs a lambda')
         names = [a.arg for a in lam.args.args]
-        vars_ = [fresh(nm) for nm in names]
+        vars_ = [fresh(nm, IntSeq) if text else fresh(nm) for nm in names]
         saved = dict((nm, self.ns.get(nm, None)) for nm in names)
         had = dict((nm, nm in self.ns) for nm in names)
         for nm, v in zip(names, vars_):
-            self.ns[nm] = IntV(v)
+            self.ns[nm] = SeqV(v, 'str') if text else IntV(v)
         old_cache = self._defcache
         self._defcache = {}
         try:
@@ -797,6 +797,9 @@ class PureEval(object):
 
     def fn_exists(self, n):
         return self._quant(n, False)
+
+    def fn_forall_text(self, n):
+        return self._quant(n, True, text=True)
 
     def fn_add_range(self, n):
         """add_range(S, lo, cnt) == S | {lo .. lo+cnt-1}; fresh set with a definitional axiom"""
